@@ -1,7 +1,7 @@
 (** C06 - theorems about the assembly model (Model/C06_Mesh.v), for every mesh:
     indices are valid, every boundary / projected quad is the [fm]-side of a block, blocks are the
     non-deleted operations in order, the VTK lists the same points and hexahedra. *)
-From Coq Require Import List Bool Arith ZArith QArith Qabs Qround String Lia.
+From Coq Require Import List Bool Arith ZArith QArith Qabs Qround String Lia Lqa.
 From CB Require Import Base.Hex Model.C06_Render Model.C06_Mesh.
 Import ListNotations.
 Open Scope nat_scope.
@@ -319,4 +319,96 @@ Proof.
     apply orb_true_iff in H. destruct H as [H|H].
     + apply Nat.eqb_eq in H. contradiction.
     + rewrite E in H. unfold pair_nat_eqb in H. rewrite !Nat.eqb_refl in H. discriminate.
+Qed.
+
+(** ** the evaluation shortcut of [find_vtx] is sound: it computes the plain first-match search *)
+Section Keys.
+Local Open Scope Q_scope.
+Lemma sq_lt_abs (x t : Q) : 0 <= t -> x * x < t * t -> Qabs x < t.
+Proof.
+  intros Ht H. destruct (Qlt_le_dec (Qabs x) t) as [L|L]; [exact L|exfalso].
+  assert (H2 : t * t <= Qabs x * Qabs x).
+  { apply Qmult_le_compat_nonneg; split; assumption. }
+  assert (E : Qabs x * Qabs x == x * x).
+  { rewrite <- Qabs_Qmult. apply Qabs_pos. nra. }
+  rewrite E in H2. apply (Qlt_irrefl (x*x)). eapply Qlt_le_trans; eassumption.
+Qed.
+
+Lemma floor_close (x y : Q) : Qabs (x - y) < 1 -> (Z.abs (Qfloor x - Qfloor y) <= 1)%Z.
+Proof.
+  intro H. apply Qabs_Qlt_condition in H. destruct H as [H1 H2].
+  assert (Fx := Qfloor_le x). assert (Fy := Qfloor_le y).
+  assert (Gx := Qlt_floor x). assert (Gy := Qlt_floor y).
+  assert (A : (Qfloor x < Qfloor y + 2)%Z).
+  { rewrite Zlt_Qlt. rewrite inject_Z_plus in *. change (inject_Z 1) with 1 in *. change (inject_Z 2) with 2. lra. }
+  assert (B : (Qfloor y < Qfloor x + 2)%Z).
+  { rewrite Zlt_Qlt. rewrite inject_Z_plus in *. change (inject_Z 1) with 1 in *. change (inject_Z 2) with 2. lra. }
+  lia.
+Qed.
+
+Lemma sq_nonneg (x : Q) : 0 <= x * x.
+Proof.
+  destruct (Qlt_le_dec x 0) as [L|L].
+  - assert (E : x * x == (- x) * (- x)) by ring. rewrite E. apply Qmult_le_0_compat; lra.
+  - apply Qmult_le_0_compat; assumption.
+Qed.
+
+Definition tol1 : Q := 1 # 10000000.   (* TOL *)
+
+Lemma key1_complete (a d : Q) : Qabs (a - d) < tol1 -> key1_near (key_of a) (key_of d) = true.
+Proof.
+  intro H. unfold key1_near, key_of. apply Z.leb_le. apply floor_close.
+  assert (E : a * key_scale - d * key_scale == (a - d) * key_scale) by ring.
+  rewrite E, Qabs_Qmult.
+  assert (K : Qabs key_scale == key_scale) by reflexivity.
+  rewrite K. unfold tol1, key_scale in *.
+  assert (P := Qabs_nonneg (a - d)). nra.
+Qed.
+
+Lemma near_coords (p r : pt) : near p r = true ->
+  let '(a, b, c) := p in let '(d, e, f) := r in
+  Qabs (a - d) < tol1 /\ Qabs (b - e) < tol1 /\ Qabs (c - f) < tol1.
+Proof.
+  destruct p as [[a b] c], r as [[d e] f]. unfold near, sqd. intro H.
+  apply negb_true_iff in H.
+  assert (L : (a - d) * (a - d) + (b - e) * (b - e) + (c - f) * (c - f) < tol2).
+  { destruct (Qlt_le_dec ((a - d) * (a - d) + (b - e) * (b - e) + (c - f) * (c - f)) tol2) as [L|L]; [exact L|].
+    apply Qle_bool_iff in L. rewrite L in H. discriminate. }
+  assert (T : tol2 == tol1 * tol1) by reflexivity.
+  assert (S1 := sq_nonneg (a - d)).
+  assert (S2 := sq_nonneg (b - e)).
+  assert (S3 := sq_nonneg (c - f)).
+  assert (T0 : 0 <= tol1) by (unfold tol1; lra).
+  repeat split; apply sq_lt_abs; try exact T0; rewrite <- T; lra.
+Qed.
+
+Theorem key_near_complete (p r : pt) : near p r = true -> key_near (key_pt p) (key_pt r) = true.
+Proof.
+  intro H. apply near_coords in H. destruct p as [[a b] c], r as [[d e] f].
+  destruct H as (H1 & H2 & H3). unfold key_near, key_pt.
+  rewrite (key1_complete _ _ H1), (key1_complete _ _ H2), (key1_complete _ _ H3). reflexivity.
+Qed.
+
+End Keys.
+
+Fixpoint find_vtx_spec (vs : list vtx) (p : pt) (sl : list string) (i : nat) : option nat :=
+  match vs with
+  | [] => None
+  | v :: r => if near p (x_pos v) && str_set_eqb (x_slaves v) sl then Some i else find_vtx_spec r p sl (S i)
+  end.
+
+Definition keys_ok (vs : list vtx) : Prop := Forall (fun v => x_key v = key_pt (x_pos v)) vs.
+
+Lemma find_vtx_is_spec vs p sl : keys_ok vs -> forall i, find_vtx vs p (key_pt p) sl i = find_vtx_spec vs p sl i.
+Proof.
+  induction 1 as [|v vs Hv Hvs IH]; intro i; simpl; [reflexivity|].
+  rewrite Hv. destruct (near p (x_pos v)) eqn:En.
+  - rewrite (key_near_complete _ _ En). simpl. destruct (str_set_eqb (x_slaves v) sl); [reflexivity|apply IH].
+  - simpl. destruct (key_near (key_pt p) (key_pt (x_pos v))); apply IH.
+Qed.
+
+Lemma add_vtx_keys vs p ls sl : keys_ok vs -> keys_ok (fst (add_vtx vs p ls sl)).
+Proof.
+  intro H. unfold add_vtx. destruct (find_vtx vs p (key_pt p) sl 0); simpl; [exact H|].
+  apply Forall_app. split; [exact H|]. constructor; [reflexivity|constructor].
 Qed.
